@@ -132,14 +132,14 @@ func init() {
 	})
 	// ------------------------------------------------------------------ C12
 	register("C12", func(r *Reporter) {
-		r.Cov["rule"] = "General programs (exhaustive up to the bound + simulated) and the Timing family; on MVP-1 the returned cycle count must equal the latency ledger of the specification (RV32!Cyc1 summed over the executed instructions), MVP-2 must not be slower than MVP-1 and must equal the specification's instruction-window ledger (Cyc2), MVP-3 must equal the specification's LRU-cache ledger (16-line instruction and data caches, write-back of every resident line at the end), every variant must return a positive count >= ceil(n / issue width), and runs of one Timing program with different data but equal path and addresses must take equal cycles on every configuration. Non-trivial = at least 2 executed instructions"
+		r.Cov["rule"] = "General programs (exhaustive up to the bound + simulated) and the Timing family; on MVP-1 the returned cycle count must equal the latency ledger of the specification (RV32!Cyc1 summed over the executed instructions), MVP-2 must not be slower than MVP-1 and must equal the specification's instruction-window ledger (Cyc2), MVP-3 must equal the specification's LRU-cache ledger (16-line instruction and data caches, write-back of every resident line at the end), every variant must return a positive count >= ceil(n / issue width), and runs of one Timing program with different data but equal path and addresses must take equal cycles on every configuration; the Misaligned family (lw/lh/sw/sh at odd offsets inside one line) is run on MVP-1..3 only. Non-trivial = at least 2 executed instructions"
 		var mu sync.Mutex
 		groups := map[string]map[string]map[int]string{} // program -> config -> cycles -> one regs0
 		gr := generalRuns()
-		fams := []famRun{famRunOf("Timing", sizeForTier()), gr[0], gr[1], gr[len(gr)-1], famRunOf("MemWalk", "small"), famRunOf("LineFill", "small"), famRunOf("Repo", sizeForTier())}
+		fams := []famRun{famRunOf("Timing", sizeForTier()), gr[0], gr[1], gr[len(gr)-1], famRunOf("MemWalk", "small"), famRunOf("LineFill", "small"), famRunOf("Repo", sizeForTier()), famRunOf("Misaligned", "small")}
 		seqOnly := []Config{{Variant: "mvp1", Par: 1}, {Variant: "mvp2", Par: 1}, {Variant: "mvp3", Par: 1}}
 		cfgsFor := func(c *ProgCase) []Config {
-			if c.Fam == "MemWalk" { // long walks: only the variants with an exact ledger (cache evictions in MVP-3)
+			if c.Fam == "MemWalk" || c.Fam == "Misaligned" { // long walks / accesses that are not naturally aligned: only the variants with an exact ledger (cache evictions in MVP-3)
 				return seqOnly
 			}
 			return AllConfigs()
